@@ -481,3 +481,379 @@ Example C09_self_confirmation_refuted_unfixed :
    | (e, c'', _) => (e, map (lb_height isig) (cl_store isig c''))
    end) = (Some X_crossref, [3]).
 Proof. vm_compute. repeat split; reflexivity. Qed.
+
+(* ==== the evidence: contents, admission by a full node, both sides (C09/EvidenceModel.v,
+   C09/ProofsEvidence.v; cross-property with C11) ==================================================
+
+   Reading guide.  [evid_full] extends the evidence of Model.v by Timestamp, TotalVotingPower and
+   ByzantineValidators as light/detector.go newLightClientAttackEvidence fills them;
+   GetByzantineValidators is C11.Model.byz_validators applied to the translated arguments.
+   [hc_full fx ...] is the list (receiver, evidence), newest first, handleConflictingHeaders
+   reports.  [fx] = true models fixes/F77-detector-byzantine-validators-of-evidence-height.diff,
+   [fx] = false the code as it stands.  [an] / [hn] translate addresses / hashes into C11's opaque
+   identities.  [no_collision bs x]: no block of bs has x's header hash without having x's header
+   and validator set.  [node_env node top]: the chain a full node holds, as C11's environment. *)
+From TM Require Import C09.EvidenceModel C09.ProofsEvidence.
+From TM Require C11.Model C11.Spec C11.SpecProofs.
+From Coq Require Import Lia.
+
+(* the evidence Model.handle_conflicting records in st_ev - what the correspondence run compares
+   with the implementation (observable 15) - is the projection (ConflictingBlock, CommonHeight) of
+   the full evidence, in the same order, to the same receivers *)
+Theorem C09_evidence_reported_is_projection :
+  forall (sig : Type) (sv : key -> signmsg -> sig -> bool) (hash : header -> Z)
+         (vhash : list validator -> Z) (bid_hash : blockid -> Z) (an hn : Z -> N)
+         (W : Type) (ask : W -> pid -> Z -> preply sig * W)
+         (fx : bool) (P : params) (c : client sig) (now : Z) (s : st sig W)
+         (ptrace : list (lblock sig)) (b : lblock sig) (i : nat) (r : hc_result) (s' : st sig W),
+    handle_conflicting sig sv hash vhash bid_hash W ask P c now s ptrace b i = (r, s') ->
+    st_ev sig W s' =
+    proj_all sig (hc_full sig sv hash vhash bid_hash an hn W ask fx P c now s ptrace b i) ++ st_ev sig W s.
+Proof. exact hc_full_reports. Qed.
+Print Assumptions C09_evidence_reported_is_projection.
+
+(* every evidence reported is newLightClientAttackEvidence(conflicted, last of the source's trace,
+   first of the source's trace) of a successful examineConflictingHeaderAgainstTrace of a trace
+   that was verified step by step: the primary's trace examined with the witness as source
+   (receiver: that witness), or the witness's trace returned by that examination examined with
+   the primary as source (receiver: the primary) *)
+Theorem C09_evidence_origin :
+  forall (sig : Type) (sv : key -> signmsg -> sig -> bool) (hash : header -> Z)
+         (vhash : list validator -> Z) (bid_hash : blockid -> Z) (an hn : Z -> N)
+         (W : Type) (ask : W -> pid -> Z -> preply sig * W)
+         (fx : bool) (P : params) (c : client sig) (now : Z) (s : st sig W)
+         (ptrace : list (lblock sig)) (b : lblock sig) (i : nat) (r : pid) (e : evid_full sig),
+    linked (V sig sv hash vhash bid_hash P now) ptrace ->
+    In (r, e) (hc_full sig sv hash vhash bid_hash an hn W ask fx P c now s ptrace b i) ->
+    exists source s0 xtrace target conflicted common wr s1,
+      linked (V sig sv hash vhash bid_hash P now) xtrace /\
+      examine_conflicting sig sv hash vhash bid_hash W ask P source now s0 xtrace target
+        = (Some (common :: wr, conflicted), s1) /\
+      e = new_evidence_full sig sv hash vhash bid_hash an hn fx conflicted (last (common :: wr) common) common /\
+      r = source /\
+      ( (source = nth i (cl_witnesses sig c) 0 /\ xtrace = ptrace /\ target = b /\ s0 = s)
+        \/ (source = cl_primary sig c /\ In target ptrace /\
+            exists s', examine_conflicting sig sv hash vhash bid_hash W ask P (nth i (cl_witnesses sig c) 0)
+                                           now s ptrace b = (Some (xtrace, target), s')) ).
+Proof. exact evidence_origin. Qed.
+Print Assumptions C09_evidence_origin.
+
+(* (1) the contents.  For every successful examination of a verified trace [xtrace] (the accused
+   side) with the other side as source: ConflictingBlock is a block of xtrace the client verified
+   directly from its predecessor there; the common block (first of the source's verified trace)
+   is the source's block with that predecessor's hash, the trusted block the last of the
+   source's trace (the target itself in a same-height conflict).  CommonHeight / Timestamp /
+   TotalVotingPower are those of the common block for a lunatic conflict
+   (ConflictingHeaderIsInvalid) and of the trusted block otherwise - the conflicting block's own
+   height in a same-height conflict.  ByzantineValidators = GetByzantineValidators(bv, trusted
+   signed header) of the conflicting block, which is THE list C11's specification names (C11
+   Spec.byz_ok: members of [bv] with their power there, who signed as the kind of attack says,
+   power descending then address ascending) under C11's well-formedness premise [byz_wf]; [bv] is
+   the common block's validator set, and with repair F77 the validator set of the evidence's
+   height ([base]) in every case. *)
+Theorem C09_evidence_contents :
+  forall (sig : Type) (sv : key -> signmsg -> sig -> bool) (hash : header -> Z)
+         (vhash : list validator -> Z) (bid_hash : blockid -> Z) (an hn : Z -> N)
+         (W : Type) (ask : W -> pid -> Z -> preply sig * W)
+         (fx : bool) (P : params) (source : pid) (now : Z) (s : st sig W)
+         (xtrace : list (lblock sig)) (target conflicted : lblock sig) (s' : st sig W)
+         (common : lblock sig) (wr : list (lblock sig))
+         (trusted : lblock sig) (lun : bool) (base bv : lblock sig) (chain : Z),
+    linked (V sig sv hash vhash bid_hash P now) xtrace ->
+    examine_conflicting sig sv hash vhash bid_hash W ask P source now s xtrace target
+      = (Some (common :: wr, conflicted), s') ->
+    trusted = last (common :: wr) common ->
+    lun = conflicting_header_is_invalid (lb_hdr sig conflicted) (lb_hdr sig trusted) ->
+    base = (if lun then common else trusted) ->
+    bv = (if lun then common else if fx then trusted else common) ->
+    chain = h_chain (lb_hdr sig trusted) ->
+    no_collision sig hash xtrace trusted ->
+    let e := new_evidence_full sig sv hash vhash bid_hash an hn fx conflicted trusted common in
+    (exists l1 pred l2, xtrace = l1 ++ pred :: conflicted :: l2 /\
+                        V sig sv hash vhash bid_hash P now pred conflicted /\
+                        lb_hash sig hash common = lb_hash sig hash pred) /\
+    linked (V sig sv hash vhash bid_hash P now) (common :: wr) /\
+    ef_block sig e = conflicted /\
+    ef_common sig e = lb_height sig base /\ ef_time sig e = lb_time sig base /\
+    ef_total sig e = total_power (lb_vals sig base) /\
+    (lun = false -> lb_height sig conflicted = lb_height sig target ->
+     ef_common sig e = lb_height sig conflicted) /\
+    (lb_height sig conflicted = lb_height sig target -> trusted = target) /\
+    ef_byz sig e = E.byz_validators (lca_core sig sv hash vhash bid_hash an hn chain conflicted)
+                                    (to_vals an (lb_vals sig bv)) (to_header sig hash hn trusted) /\
+    (forall tvals,
+       TM.C11.SpecProofs.byz_wf (lca_core sig sv hash vhash bid_hash an hn chain conflicted)
+                                (to_vals an (lb_vals sig bv)) tvals (to_header sig hash hn trusted) ->
+       ES.byz_ok (lca_core sig sv hash vhash bid_hash an hn chain conflicted)
+                 (to_vals an (lb_vals sig bv)) tvals (to_header sig hash hn trusted) (ef_byz sig e) = true) /\
+    (fx = true -> bv = base).
+Proof. exact evidence_contents. Qed.
+Print Assumptions C09_evidence_contents.
+
+(* the link between the two verifications: a commit accepted by VerifyCommitLightTrusting at the
+   client's trust level (ValidateTrustLevel: at least 1/3) is accepted at the level 1/3 at which
+   evidence.VerifyLightClientAttack re-checks it *)
+Theorem C09_trust_level_covers_one_third :
+  forall (sig : Type) (sv : key -> signmsg -> sig -> bool) (vs : list validator) (chain : Z)
+         (c : commit sig) (num den : Z),
+    wf_valset vs -> 0 <= num <= max_int64 -> 0 < den <= max_int64 -> den <= 3 * num ->
+    verify_commit_light_trusting sv vs chain c num den = R_ok ->
+    verify_commit_light_trusting sv vs chain c 1 3 = R_ok.
+Proof. exact trusting_level_third. Qed.
+Print Assumptions C09_trust_level_covers_one_third.
+
+(* (2) admission.  The evidence of the REPAIRED detector (F77), formed from a successful
+   examination of the accused side's verified trace, passes C11's model of Pool.verify /
+   VerifyLightClientAttack (with F57 / F60) at a full node on the trusted side.  Premises, all
+   named:  hashes translate injectively; no block of the examined trace collides with the common
+   / the trusted block; the client's trust level is within int64 and at least 1/3; the validator
+   set of the evidence's height is well formed; the node holds the block of the evidence's height
+   ([base]: the common block if lunatic, else the trusted block) and the trusted block - at the
+   conflicting block's height, or as its latest block, not older than the conflicting block, when
+   the conflicting block is above its chain (node_has_trusted); the evidence is not older than
+   BOTH age limits at the node's state; every signature FOR the conflicting block is by the
+   validator of its index and verifies (all_for_block_ok - repair F60 verifies all of them, the
+   light client only the first +2/3); and the skipping step of VerifyLightClientAttack: DERIVED
+   from the client's own verification for a lunatic conflict whose conflicting block is not
+   adjacent to the common block (first disjunct), not needed for a same-height non-lunatic
+   conflict (second), and a PREMISE otherwise - an adjacent lunatic block was admitted by
+   NextValidatorsHash alone, nothing says that 1/3 of the common set signed it. *)
+Theorem C09_evidence_is_admissible :
+  forall (sig : Type) (sv : key -> signmsg -> sig -> bool) (hash : header -> Z)
+         (vhash : list validator -> Z) (bid_hash : blockid -> Z) (an hn : Z -> N),
+    (forall a b, hn a = hn b -> a = b) ->
+  forall (W : Type) (ask : W -> pid -> Z -> preply sig * W)
+         (P : params) (now : Z) (source : pid) (s : st sig W) (ptrace : list (lblock sig))
+         (target pblock : lblock sig) (s' : st sig W) (common : lblock sig) (wr : list (lblock sig))
+         (node : Z -> option (lblock sig)) (top : Z) (pst : E.pstate)
+         (trusted : lblock sig) (lun : bool) (base : lblock sig) (chain : Z),
+    linked (V sig sv hash vhash bid_hash P now) ptrace ->
+    examine_conflicting sig sv hash vhash bid_hash W ask P source now s ptrace target
+      = (Some (common :: wr, pblock), s') ->
+    trusted = last (common :: wr) common ->
+    lun = conflicting_header_is_invalid (lb_hdr sig pblock) (lb_hdr sig trusted) ->
+    base = (if lun then common else trusted) ->
+    chain = h_chain (lb_hdr sig trusted) ->
+    no_collision sig hash ptrace common -> no_collision sig hash ptrace trusted ->
+    0 <= p_num P <= max_int64 -> 0 < p_den P <= max_int64 -> p_den P <= 3 * p_num P ->
+    wf_valset (lb_vals sig base) ->
+    node (lb_height sig base) = Some base ->
+    node_has_trusted sig node top trusted pblock ->
+    ((E.s_time pst - lb_time sig base >? E.s_max_dur pst) &&
+     (E.s_height pst - lb_height sig base >? E.s_max_blocks pst)) = false ->
+    all_for_block_ok sig sv an chain pblock ->
+    ( (lun = true /\ lb_height sig pblock <> lb_height sig common + 1)
+      \/ (lun = false /\ lb_height sig trusted = lb_height sig pblock)
+      \/ verify_commit_light_trusting sv (lb_vals sig base) chain (lb_commit sig pblock) 1 3 = R_ok ) ->
+    E.verify (node_env sig hash an hn node top) pst
+             (to_evidence sig sv hash vhash bid_hash an hn chain (lb_vals sig base)
+                (new_evidence_full sig sv hash vhash bid_hash an hn true pblock trusted common)) = true.
+Proof. exact evidence_admissible. Qed.
+Print Assumptions C09_evidence_is_admissible.
+
+(* (3) both sides - EXACTLY what handleConflictingHeaders reports and returns.  Nothing when the
+   witness cannot back its header from the primary's trace (the witness is removed).  Otherwise
+   the evidence against the primary is sent to the witness FIRST, in every case (also when the
+   call then panics on an empty trace).  The evidence against the witness is sent to the
+   primary if and only if the reverse examination - the witness's trace, against the primary as
+   source - succeeds with a non-empty trace, i.e. the primary answers the requests for the
+   heights of the witness's trace, its block at the common height has the common block's hash,
+   and its blocks verify by bisection up to a block that differs from the witness's.  A primary
+   that stays silent, no longer serves its fork, or differs at the common height gets nothing;
+   the call still ends with the attack verdict. *)
+Theorem C09_evidence_for_both_sides :
+  forall (sig : Type) (sv : key -> signmsg -> sig -> bool) (hash : header -> Z)
+         (vhash : list validator -> Z) (bid_hash : blockid -> Z) (an hn : Z -> N)
+         (W : Type) (ask : W -> pid -> Z -> preply sig * W)
+         (fx : bool) (P : params) (c : client sig) (now : Z) (s : st sig W)
+         (ptrace : list (lblock sig)) (b : lblock sig) (i : nat),
+    let sw := nth i (cl_witnesses sig c) 0 in
+    let hc := handle_conflicting sig sv hash vhash bid_hash W ask P c now s ptrace b i in
+    let full := hc_full sig sv hash vhash bid_hash an hn W ask fx P c now s ptrace b i in
+    match examine_conflicting sig sv hash vhash bid_hash W ask P sw now s ptrace b with
+    | (None, s1) => hc = (HC_not_attack, s1) /\ full = []
+    | (Some ([], _), s1) => hc = (HC_panic, s1) /\ full = []
+    | (Some (common :: wr, pblock), s1) =>
+      let wtrace := common :: wr in
+      let e1 := new_evidence_full sig sv hash vhash bid_hash an hn fx pblock (last wtrace common) common in
+      let s2 := reportS sig W s1 sw (ef_proj sig e1) in
+      match examine_conflicting sig sv hash vhash bid_hash W ask P (cl_primary sig c) now s2 wtrace pblock with
+      | (None, s3) => hc = (HC_attack, s3) /\ full = [(sw, e1)]
+      | (Some ([], _), s3) => hc = (HC_panic, s3) /\ full = [(sw, e1)]
+      | (Some (common' :: pr, wblock), s3) =>
+        let e2 := new_evidence_full sig sv hash vhash bid_hash an hn fx wblock
+                                    (last (common' :: pr) common') common' in
+        hc = (HC_attack, reportS sig W s3 (cl_primary sig c) (ef_proj sig e2)) /\
+        full = [(cl_primary sig c, e2); (sw, e1)]
+      end
+    end.
+Proof. exact hc_cases. Qed.
+Print Assumptions C09_evidence_for_both_sides.
+
+(* ---- non-vacuity and the refuted variants ---------------------------------------------------- *)
+
+(* injective translation of integers into C11's identities *)
+Definition zn (z : Z) : N := Z.to_N (if 0 <=? z then 2 * z else - 2 * z - 1).
+Lemma zn_inj : forall a b, zn a = zn b -> a = b.
+Proof.
+  intros a b H. unfold zn in H.
+  destruct (0 <=? a) eqn:Ea; destruct (0 <=? b) eqn:Eb; apply Z2N.inj in H; lia.
+Qed.
+
+(* the same three validators at every height; their powers change at height 3 *)
+Definition yA : list validator :=
+  [ {| v_addr := 1; v_key := 1; v_power := 10 |}; {| v_addr := 2; v_key := 2; v_power := 10 |};
+    {| v_addr := 3; v_key := 3; v_power := 10 |} ].
+Definition yB : list validator :=
+  [ {| v_addr := 1; v_key := 1; v_power := 10 |}; {| v_addr := 2; v_key := 2; v_power := 15 |};
+    {| v_addr := 3; v_key := 3; v_power := 20 |} ].
+Definition yset (h : Z) := if h <=? 2 then yA else yB.
+Definition zblk (vs nvs : list validator) (h tag time app : Z) : lblock isig :=
+  {| lb_hdr := {| h_chain := 7; h_height := h; h_time := time; h_last_bid := 100 + h - 1;
+                  h_vals_hash := xvhash vs; h_next_vals_hash := xvhash nvs;
+                  h_cons := 0; h_app := app; h_res := 0; h_fmt_ok := true; h_tag := tag |};
+     lb_commit := {| c_height := h; c_round := 0; c_bid := tag; c_sigs := map (xslot h tag) vs |};
+     lb_vals := vs; lb_vals_fmt_ok := true |}.
+Definition yblk (h tag time app : Z) : lblock isig := zblk (yset h) (yset (h + 1)) h tag time app.
+Definition yg (h : Z) : lblock isig := yblk h (100 + h) (10 * h) 0.        (* the chain, heights 1..4 *)
+Definition yf4 : lblock isig := yblk 4 444 41 0.                           (* equivocation at height 4 *)
+Definition yl4 : lblock isig := yblk 4 445 41 9.                           (* lunatic (other AppHash) at 4 *)
+Definition yask (w : unit) (p : pid) (h : Z) : preply isig * unit :=
+  if (1 <=? h) && (h <=? 4) then (P_block isig (yg h), w) else (P_err isig PE_not_found, w).
+Definition ynode (h : Z) : option (lblock isig) := if (1 <=? h) && (h <=? 4) then Some (yg h) else None.
+Definition ypst : E.pstate :=
+  {| E.s_height := 5; E.s_time := 50; E.s_max_blocks := 100; E.s_max_dur := 1000; E.s_lastvals := [] |}.
+Definition yverify (fx : bool) (pblock trusted common base : lblock isig) : bool :=
+  E.verify (node_env isig xhash zn zn ynode 4) ypst
+           (to_evidence isig ideal_verify xhash xvhash xbid zn zn 7 (lb_vals isig base)
+              (new_evidence_full isig ideal_verify xhash xvhash xbid zn zn fx pblock trusted common)).
+
+(* F77.  The primary equivocates at height 4 (same derived hashes, same round, everybody signs both
+   blocks); the client, rooted at height 1, verified 1 -> 4' in one skipping step; the witness
+   backs the genuine block 4 from the common block 1.  CommonHeight = 4 (not lunatic), but the
+   code looks the double signers up in the validator set of the COMMON block (height 1: powers
+   10/10/10), the full node in the set of height 4 (10/15/20): the evidence of the unrepaired
+   detector is REFUSED by the honest full node, the evidence of the repaired one is admitted.
+   Replayed on the implementation (light.Client + evidence.Pool, 4 validators, powers
+   10/10/10/10 -> 10/15/20/25): AddEvidence fails with 'evidence contained an unexpected
+   byzantine validator address' without the repair and succeeds with it. *)
+Example C09_evidence_unrepaired_F77_refuted :
+  verify isig ideal_verify xhash xvhash xbid xP (yg 1) (lb_vals isig (yg 1)) yf4 60 = E_ok /\
+  fst (examine_conflicting isig ideal_verify xhash xvhash xbid unit yask xP 2 60 (s0 tt) [yg 1; yf4] (yg 4))
+    = Some ([yg 1; yg 4], yf4) /\
+  conflicting_header_is_invalid (lb_hdr isig yf4) (lb_hdr isig (yg 4)) = false /\
+  (let e := new_evidence_full isig ideal_verify xhash xvhash xbid zn zn false yf4 (yg 4) (yg 1) in
+   (ef_common isig e, ef_total isig e, map E.va_power (ef_byz isig e)) = (4, 45, [10; 10; 10])) /\
+  (let e := new_evidence_full isig ideal_verify xhash xvhash xbid zn zn true yf4 (yg 4) (yg 1) in
+   (ef_common isig e, ef_total isig e, map E.va_power (ef_byz isig e)) = (4, 45, [20; 15; 10])) /\
+  yverify false yf4 (yg 4) (yg 1) (yg 4) = false /\
+  yverify true yf4 (yg 4) (yg 1) (yg 4) = true.
+Proof. vm_compute. repeat split; reflexivity. Qed.
+
+(* the premises of C09_evidence_is_admissible are satisfiable: the equivocation above (second
+   disjunct of the skipping premise) and a lunatic block at height 4 verified by one skipping step
+   from height 1 (first disjunct: the 1/3 of the common set is derived from the client's own
+   verification); both evidences are admitted *)
+Example C09_evidence_admissible_nonvacuous :
+  (forall a b, zn a = zn b -> a = b) /\
+  linked (V isig ideal_verify xhash xvhash xbid xP 60) [yg 1; yl4] /\
+  examine_conflicting isig ideal_verify xhash xvhash xbid unit yask xP 2 60 (s0 tt) [yg 1; yl4] (yg 4)
+    = (Some ([yg 1; yg 4], yl4), snd (examine_conflicting isig ideal_verify xhash xvhash xbid unit yask xP 2 60
+                                         (s0 tt) [yg 1; yl4] (yg 4))) /\
+  conflicting_header_is_invalid (lb_hdr isig yl4) (lb_hdr isig (yg 4)) = true /\
+  no_collision isig xhash [yg 1; yl4] (yg 1) /\ no_collision isig xhash [yg 1; yl4] (yg 4) /\
+  (0 <= p_num xP <= max_int64 /\ 0 < p_den xP <= max_int64 /\ p_den xP <= 3 * p_num xP) /\
+  wf_valset (lb_vals isig (yg 1)) /\
+  ynode (lb_height isig (yg 1)) = Some (yg 1) /\
+  node_has_trusted isig ynode 4 (yg 4) yl4 /\
+  all_for_block_ok isig ideal_verify zn 7 yl4 /\
+  lb_height isig yl4 <> lb_height isig (yg 1) + 1 /\
+  yverify true yl4 (yg 4) (yg 1) (yg 1) = true /\
+  yverify true yf4 (yg 4) (yg 1) (yg 4) = true.
+Proof.
+  split; [exact zn_inj|]. split; [vm_compute; repeat split; reflexivity|].
+  split; [vm_compute; reflexivity|]. split; [vm_compute; reflexivity|].
+  split.
+  { intros b [<-|[<-|[]]] H; vm_compute in H; try discriminate; split; reflexivity. }
+  split.
+  { intros b [<-|[<-|[]]] H; vm_compute in H; try discriminate; split; reflexivity. }
+  split; [vm_compute; repeat split; discriminate|].
+  split; [apply wf_valsetb_wf; vm_compute; reflexivity|].
+  split; [vm_compute; reflexivity|].
+  split; [left; split; vm_compute; reflexivity|].
+  split; [vm_compute; reflexivity|].
+  split; [vm_compute; discriminate|].
+  split; vm_compute; reflexivity.
+Qed.
+
+(* the two premises the detector cannot discharge are needed.  (a) An ADJACENT lunatic block: the
+   validator set changes completely from height 2 (set A) to height 3 (set B, as the genuine
+   header 2 announces); set B signs a block 3 with another AppHash; the client accepts 2 -> 3' by
+   NextValidatorsHash, the witness backs the genuine 3: the evidence (CommonHeight 2, no
+   byzantine validator: nobody of set A signed) is refused by the full node - nobody of the common
+   set signed, the skipping step of VerifyLightClientAttack fails.  (b) A conflicting commit
+   whose last slot is flagged for the block but carries garbage: the client never looks at it
+   (the first two slots hold more than 2/3), the full node refuses the evidence (F60). *)
+Definition wA : list validator := setA.
+Definition wB : list validator := setB.
+Definition wg2 : lblock isig := zblk wA wB 2 102 20 0.
+Definition wg3 : lblock isig := zblk wB wB 3 103 30 0.
+Definition wl3 : lblock isig := zblk wB wB 3 333 31 9.
+Definition wnode (h : Z) : option (lblock isig) :=
+  if h =? 2 then Some wg2 else if h =? 3 then Some wg3 else None.
+Definition garbage_last (b : lblock isig) : lblock isig :=
+  {| lb_hdr := lb_hdr isig b;
+     lb_commit := {| c_height := c_height (lb_commit isig b); c_round := c_round (lb_commit isig b);
+                     c_bid := c_bid (lb_commit isig b);
+                     c_sigs := match rev (c_sigs (lb_commit isig b)) with
+                               | x :: r => rev ({| cs_flag := cs_flag x; cs_addr := cs_addr x; cs_ts := cs_ts x;
+                                                   cs_sig := Garbage |} :: r)
+                               | [] => []
+                               end |};
+     lb_vals := lb_vals isig b; lb_vals_fmt_ok := lb_vals_fmt_ok isig b |}.
+Definition yC : list validator :=
+  [ {| v_addr := 1; v_key := 1; v_power := 20 |}; {| v_addr := 2; v_key := 2; v_power := 20 |};
+    {| v_addr := 3; v_key := 3; v_power := 5 |} ].
+Definition cg (h : Z) : lblock isig := zblk yC yC h (100 + h) (10 * h) 0.
+Definition cf4 : lblock isig := garbage_last (zblk yC yC 4 444 41 0).
+Definition cnode (h : Z) : option (lblock isig) := if (1 <=? h) && (h <=? 4) then Some (cg h) else None.
+
+Example C09_evidence_premises_needed :
+  (* (a) *)
+  verify isig ideal_verify xhash xvhash xbid xP wg2 (lb_vals isig wg2) wl3 60 = E_ok /\
+  conflicting_header_is_invalid (lb_hdr isig wl3) (lb_hdr isig wg3) = true /\
+  all_for_block_ok isig ideal_verify zn 7 wl3 /\
+  ef_byz isig (new_evidence_full isig ideal_verify xhash xvhash xbid zn zn true wl3 wg3 wg2) = [] /\
+  E.verify (node_env isig xhash zn zn wnode 3) ypst
+           (to_evidence isig ideal_verify xhash xvhash xbid zn zn 7 (lb_vals isig wg2)
+              (new_evidence_full isig ideal_verify xhash xvhash xbid zn zn true wl3 wg3 wg2)) = false /\
+  (* (b) *)
+  verify isig ideal_verify xhash xvhash xbid xP (cg 1) (lb_vals isig (cg 1)) cf4 60 = E_ok /\
+  ~ all_for_block_ok isig ideal_verify zn 7 cf4 /\
+  E.verify (node_env isig xhash zn zn cnode 4) ypst
+           (to_evidence isig ideal_verify xhash xvhash xbid zn zn 7 (lb_vals isig (cg 4))
+              (new_evidence_full isig ideal_verify xhash xvhash xbid zn zn true cf4 (cg 4) (cg 1))) = false /\
+  E.verify (node_env isig xhash zn zn cnode 4) ypst
+           (to_evidence isig ideal_verify xhash xvhash xbid zn zn 7 (lb_vals isig (cg 4))
+              (new_evidence_full isig ideal_verify xhash xvhash xbid zn zn true (zblk yC yC 4 444 41 0) (cg 4) (cg 1))) = true.
+Proof.
+  vm_compute. repeat split; try reflexivity. discriminate.
+Qed.
+
+(* (3) is not vacuous: with the primary still serving its fork both evidences go out (to the
+   primary: the witness's block 4; to the witness: the primary's block 4'), with a primary that
+   went silent only the evidence against the primary, to the witness; the verdict is the same *)
+Definition yask_fork (w : unit) (p : pid) (h : Z) : preply isig * unit :=
+  if (p =? 1) && (h =? 4) then (P_block isig yf4, w) else yask w p h.
+Definition yask_silent (w : unit) (p : pid) (h : Z) : preply isig * unit :=
+  if p =? 1 then (P_err isig PE_no_response, w) else yask w p h.
+Example C09_evidence_both_sides_nonvacuous :
+  let c := {| cl_primary := 1; cl_witnesses := [2]; cl_store := [yg 1]; cl_latest := Some (yg 1) |} in
+  let obs := fun ask =>
+    (fst (handle_conflicting isig ideal_verify xhash xvhash xbid unit ask xP c 60 (s0 tt) [yg 1; yf4] (yg 4) 0),
+     map (fun pe => (fst pe, lb_hash isig xhash (ef_block isig (snd pe)), ef_common isig (snd pe),
+                     map E.va_power (ef_byz isig (snd pe))))
+         (hc_full isig ideal_verify xhash xvhash xbid zn zn unit ask true xP c 60 (s0 tt) [yg 1; yf4] (yg 4) 0)) in
+  obs yask_fork = (HC_attack, [(1, 104, 4, [20; 15; 10]); (2, 444, 4, [20; 15; 10])]) /\
+  obs yask_silent = (HC_attack, [(2, 444, 4, [20; 15; 10])]).
+Proof. vm_compute. split; reflexivity. Qed.
